@@ -282,3 +282,35 @@ package sql
 //@ effect[C08:references-acquired-per-listed-occurrence] every sms.partRegistryRepository.TryAddReferences(_, $t, $refs)
 //@     needs before partregistry.RefsFromPartIds($ids) -> ($r)
 //@     where $t == tx && same($ids, partIds) && same($refs, $r)
+
+// C01 / C13. Reads. HeadObject reports the row the repository returns as the current object of the key; HeadObjectVersion
+// reports the row with exactly the requested version id ("null" names the null version, it is not "no version"): the
+// object handed back carries that row's version id, ETag, size, content type, delete-marker flag and timestamps, and
+// its parts are the part rows of that row.
+//@ func (*sqlMetadataStore).HeadObject
+//@ property C01 C13
+//@ mode effects
+//@ trust nonnil bucket.Repository.ExistsBucketByName
+//@ effect[C13:current-object-read-by-key-only] every sms.objectRepository.$M(__) where $M == "FindObjectByBucketNameAndKey"
+//@ effect[C13:reported-object-is-the-row-read] every returns() if err == nil
+//@     needs before sms.objectRepository.FindObjectByBucketNameAndKey(_, $t, $b, $k) -> ($e, $ferr)
+//@     where $t == tx && $b == bucketName && $k == key && $ferr == nil && $e != nil && result != nil && result.Key == key &&
+//@         result.VersionID == $e.VersionID && result.ETag == $e.ETag && result.Size == $e.Size &&
+//@         result.IsDeleteMarker == $e.IsDeleteMarker && result.ContentType == $e.ContentType && result.LastModified.Equal($e.UpdatedAt)
+//@ effect[C13:parts-of-the-row-read] every sms.partRepository.FindPartsByObjectIdOrderBySequenceNumberAsc(_, $t, $id)
+//@     needs before sms.objectRepository.FindObjectByBucketNameAndKey(_, _, _, _) -> ($e, _)
+//@     where $t == tx && $e != nil && $id == *$e.Id
+
+//@ func (*sqlMetadataStore).HeadObjectVersion
+//@ property C01 C13
+//@ mode effects
+//@ trust nonnil bucket.Repository.ExistsBucketByName
+//@ effect[C13:version-read-by-its-id] every sms.objectRepository.$M(__) where $M == "FindObjectByBucketNameAndKeyAndVersionID"
+//@ effect[C13:reported-version-is-the-row-read] every returns() if err == nil
+//@     needs before sms.objectRepository.FindObjectByBucketNameAndKeyAndVersionID(_, $t, $b, $k, $v) -> ($e, $ferr)
+//@     where $t == tx && $b == bucketName && $k == key && $v == versionID && $ferr == nil && $e != nil && result != nil && result.Key == key &&
+//@         result.VersionID == $e.VersionID && result.ETag == $e.ETag && result.Size == $e.Size &&
+//@         result.IsDeleteMarker == $e.IsDeleteMarker && result.ContentType == $e.ContentType && result.LastModified.Equal($e.UpdatedAt)
+//@ effect[C13:parts-of-the-version-read] every sms.partRepository.FindPartsByObjectIdOrderBySequenceNumberAsc(_, $t, $id)
+//@     needs before sms.objectRepository.FindObjectByBucketNameAndKeyAndVersionID(_, _, _, _, _) -> ($e, _)
+//@     where $t == tx && $e != nil && $id == *$e.Id
